@@ -6,7 +6,10 @@ import (
 	"bufio"
 	"encoding/json"
 	"fmt"
+	"io"
 	"math/rand/v2"
+	"net"
+	"net/http"
 	"strings"
 	"testing"
 	"testing/synctest"
@@ -27,6 +30,14 @@ type c19Req struct {
 	TLS    bool   `json:"tls"`
 	Multi  int    `json:"x_multi_values"`
 	UA     string `json:"ua"`
+	// responses that fail after they have begun (endings "cut-length", "cut-chunked", "abort-download-at")
+	CutStatus  int  `json:"cut_status,omitempty"`       // status the target answers with before it fails
+	Announced  int  `json:"cut_announced,omitempty"`    // Content-Length the target announces (cut-length)
+	Sent       int  `json:"cut_sent,omitempty"`         // body bytes the target really sends before it drops the connection
+	CutDelayMS int  `json:"cut_delay_ms,omitempty"`     // how long the target sits on the half-sent response before dropping it
+	InChunk    bool `json:"cut_in_chunk,omitempty"`     // cut-chunked: the stream breaks inside a chunk (else between chunks)
+	SSE        bool `json:"cut_event_stream,omitempty"` // the response is a text/event-stream (relayed without delay)
+	ReadBytes  int  `json:"client_reads,omitempty"`     // abort-download-at: body bytes the client takes before it walks away
 }
 
 type c19Scenario struct {
@@ -37,7 +48,11 @@ type c19Scenario struct {
 }
 
 var c19Endings = []string{"served", "served", "served", "served-hints", "served-head", "served-buffered", "404", "redirect", "tls-503", "paused-504", "stopped-503", "bounced-503", "bounced-504", "bounced-200",
-	"target-502", "target-504", "target-truncated", "413", "500-overflow", "abort-waiting", "abort-waiting-buffered", "abort-held", "abort-download", "abort-upload", "upgrade"}
+	"target-502", "target-504", "target-truncated", "413", "500-overflow", "abort-waiting", "abort-waiting-buffered", "abort-held", "abort-download", "abort-upload", "upgrade",
+	// responses that fail after they have begun: the target drops the connection in the middle of a body it
+	// announced (or of a chunked stream), on a plain and on a response-buffering service; the client leaves at
+	// some point of a download
+	"cut-length", "cut-length", "cut-chunked", "abort-download-at"}
 
 func c19Gen(rng *rand.Rand, idx int) c19Scenario {
 	sc := c19Scenario{Idx: idx}
@@ -50,7 +65,7 @@ func c19Gen(rng *rand.Rand, idx int) c19Scenario {
 	default:
 		sc.LogReq, sc.LogResp = []string{"X-mUlTi", "user-agent", "Cookie", "X-V"}, []string{"X-Echo-Len"}
 	}
-	n := 20 + rng.IntN(30)
+	n := 24 + rng.IntN(34)
 	for i := 0; i < n; i++ {
 		r := c19Req{ID: fmt.Sprintf("rid-%d-%d", idx, i), Ending: pick(rng, c19Endings), Method: "GET", Path: pick(rng, []string{"/", "/a/b", "/app/x.y", "/q"}),
 			Query: pick(rng, []string{"", "a=1", "x=%20y&z", "u=a;b"}), Multi: rng.IntN(3), UA: pick(rng, []string{"", "agent/1.0"})}
@@ -109,10 +124,82 @@ func c19Gen(rng *rand.Rand, idx int) c19Scenario {
 			r.Host, r.Method, r.Body = "plain.example", "POST", 100000
 		case "upgrade":
 			r.Host = "plain.example"
+		case "cut-length", "cut-chunked":
+			r.Host = pick(rng, []string{"cut.example", "cut.example", "cutbuf.example"})
+			r.Method = pick(rng, []string{"GET", "GET", "POST"})
+			if r.Method == "POST" {
+				r.Body = pick(rng, []int{0, 10, 5000})
+			}
+			r.CutStatus = pick(rng, []int{200, 200, 200, 201, 206, 404, 503})
+			r.Sent = pick(rng, []int{0, 1, 11, 3000, 5000, 70000, 300000})
+			r.CutDelayMS = pick(rng, []int{0, 0, 40, 3000})
+			r.SSE = rng.IntN(4) == 0
+			r.Size = -1
+			if r.Ending == "cut-length" {
+				r.Announced = r.Sent + pick(rng, []int{1, 89, 5000, 700000})
+			} else {
+				r.Announced = -1
+				r.InChunk = rng.IntN(2) == 0
+			}
+		case "abort-download-at":
+			r.Host = "plain.example"
+			r.Size = pick(rng, []int{70000, 300000, 1 << 20})
+			r.ReadBytes = pick(rng, []int{0, 1, 1000, 20000, 60000})
 		}
 		sc.Reqs = append(sc.Reqs, r)
 	}
 	return sc
+}
+
+// c19CutHandler: a target that begins a response and then fails. A request carrying
+// "X-Cut: status/announced/sent/delay-ms/in-chunk/sse" is answered with that status and either an
+// announced Content-Length (announced >= 0) or a chunked stream, "sent" bytes of body, and then, after
+// the delay, a dropped connection. Anything else is answered like every fake target answers.
+func c19CutHandler(w *World) func(ft *FakeTarget, c net.Conn, br *bufio.Reader, req *http.Request, body []byte) bool {
+	return func(ft *FakeTarget, c net.Conn, br *bufio.Reader, req *http.Request, body []byte) bool {
+		spec := req.Header.Get("X-Cut")
+		if spec == "" {
+			return ft.defaultHandle(c, br, req, body)
+		}
+		rec := ft.newReq(req, body)
+		var status, announced, sent, delayMS, inChunk, sse int
+		fmt.Sscanf(spec, "%d/%d/%d/%d/%d/%d", &status, &announced, &sent, &delayMS, &inChunk, &sse)
+		if !w.sleep(OffTarget) {
+			return false
+		}
+		var b strings.Builder
+		fmt.Fprintf(&b, "HTTP/1.1 %d %s\r\nX-Target: %s\r\n", status, http.StatusText(status), ft.Name)
+		if sse == 1 {
+			b.WriteString("Content-Type: text/event-stream\r\n")
+		} else {
+			b.WriteString("Content-Type: text/plain\r\n")
+		}
+		if announced >= 0 {
+			fmt.Fprintf(&b, "Content-Length: %d\r\n\r\n", announced)
+			b.WriteString(strings.Repeat("x", sent))
+		} else {
+			b.WriteString("Transfer-Encoding: chunked\r\n\r\n")
+			for left := sent; left > 0; {
+				n := min(left, 1000)
+				left -= n
+				if left == 0 && inChunk == 1 {
+					fmt.Fprintf(&b, "%x\r\n%s", n+50, strings.Repeat("x", n)) // 50 bytes of this chunk never come
+					break
+				}
+				fmt.Fprintf(&b, "%x\r\n%s\r\n", n, strings.Repeat("x", n))
+			}
+			if sent == 0 && inChunk == 1 {
+				b.WriteString("32\r\n")
+			}
+		}
+		if _, err := c.Write([]byte(b.String())); err != nil {
+			ft.end(rec, "writeerr")
+			return false
+		}
+		w.sleep(time.Duration(delayMS) * time.Millisecond)
+		ft.end(rec, "cut")
+		return false
+	}
 }
 
 func TestC19(t *testing.T) {
@@ -145,6 +232,9 @@ func c19Run(t *testing.T, run *Run, sc c19Scenario) {
 		if w.Target(target) == nil {
 			w.AddTarget(target, nil)
 		}
+		if strings.HasPrefix(target, "cut") {
+			w.Target(target).Handler = c19CutHandler(w)
+		}
 		if c := w.Deploy(name, []string{target}, so, to, 5*time.Second, time.Second); c.Err != "" {
 			run.Inconclusive("setup %s: %s", name, c.Err)
 			return false
@@ -165,6 +255,11 @@ func c19Run(t *testing.T, run *Run, sc c19Scenario) {
 		dep("st", "st-t:80", server.ServiceOptions{Hosts: []string{"st.example"}}, nil) &&
 		dep("bn", "bn-t:80", server.ServiceOptions{Hosts: []string{"bn.example"}}, nil) &&
 		dep("flt", "flt:80", server.ServiceOptions{Hosts: []string{"flt.example"}}, nil) &&
+		// targets that begin a response and then drop the connection; the second service buffers responses
+		dep("cut", "cut-t:80", server.ServiceOptions{Hosts: []string{"cut.example"}}, nil) &&
+		dep("cutbuf", "cutbuf-t:80", server.ServiceOptions{Hosts: []string{"cutbuf.example"}}, func(to *server.TargetOptions) {
+			to.BufferRequests, to.BufferResponses, to.MaxMemoryBufferSize = true, true, 1000
+		}) &&
 		// services below a stripped path prefix on the same hosts: "/app/x.y" is theirs, and the record
 		// names the path the client asked for
 		dep("plainapp", "plainapp-t:80", server.ServiceOptions{Hosts: []string{"plain.example"}, PathPrefixes: []string{"/app"}, StripPrefix: true}, nil) &&
@@ -193,6 +288,9 @@ func c19Run(t *testing.T, run *Run, sc c19Scenario) {
 			if n != "flt:80" {
 				w.AddTarget(n, nil)
 			}
+			if strings.HasPrefix(n, "cut") {
+				w.Target(n).Handler = c19CutHandler(w)
+			}
 		}
 		flt2 := w.AddTarget("flt:80", nil)
 		flt2.RawServe = c15Serve(w)
@@ -209,7 +307,7 @@ func c19Run(t *testing.T, run *Run, sc c19Scenario) {
 		}
 		return ""
 	}
-	svcOf := map[string]string{"plain.example": "plain", "tls.example": "tlsredir", "buf.example": "buf", "bufok.example": "bufok", "pz.example": "pz", "st.example": "st", "flt.example": "flt", "bn.example": "bn"}
+	svcOf := map[string]string{"plain.example": "plain", "tls.example": "tlsredir", "buf.example": "buf", "bufok.example": "bufok", "pz.example": "pz", "st.example": "st", "flt.example": "flt", "bn.example": "bn", "cut.example": "cut", "cutbuf.example": "cutbuf"}
 	type outcome struct {
 		status   int
 		bodyLen  int
@@ -247,9 +345,17 @@ func c19Run(t *testing.T, run *Run, sc c19Scenario) {
 			req.Lat, req.AbortAfter = 5*time.Second, time.Second
 		case "upgrade":
 			req.Mode, req.AbortAfter = "upgrade", 2*time.Second
+		case "cut-length", "cut-chunked":
+			b2i := func(b bool) int {
+				if b {
+					return 1
+				}
+				return 0
+			}
+			req.Hdr = append(req.Hdr, [2]string{"X-Cut", fmt.Sprintf("%d/%d/%d/%d/%d/%d", r.CutStatus, r.Announced, r.Sent, r.CutDelayMS, b2i(r.InChunk), b2i(r.SSE))})
 		}
 		switch r.Ending {
-		case "abort-download", "abort-upload":
+		case "abort-download", "abort-upload", "abort-download-at":
 			// raw client that walks away in the middle
 			conn, err := w.connect(false, "")
 			if err != nil {
@@ -257,6 +363,7 @@ func c19Run(t *testing.T, run *Run, sc c19Scenario) {
 				return
 			}
 			raw := req.bytes()
+			got := outcome{status: -1}
 			if r.Ending == "abort-upload" {
 				conn.Write(raw[:len(raw)-r.Body/2])
 				time.Sleep(10 * time.Millisecond)
@@ -265,13 +372,20 @@ func c19Run(t *testing.T, run *Run, sc c19Scenario) {
 				go conn.Write(raw)
 				br := bufio.NewReader(conn)
 				if m, err := readRawHead(br); err == nil && m.Status() == 200 {
-					buf := make([]byte, 1000)
-					br.Read(buf)
+					// the status line and the headers were received: that status was used for this request
+					got.status = m.Status()
+					if r.Ending == "abort-download-at" {
+						n, _ := io.ReadFull(br, make([]byte, r.ReadBytes))
+						got.bodyLen = n
+					} else {
+						buf := make([]byte, 1000)
+						got.bodyLen, _ = br.Read(buf)
+					}
 				}
 				conn.Close()
 			}
 			time.Sleep(100 * time.Millisecond)
-			outs[r.ID] = outcome{status: -1}
+			outs[r.ID] = got
 		case "abort-held":
 			hsvc := "bn"
 			if sub := svcFor(r.Host, r.Path); sub != "" {
@@ -404,8 +518,41 @@ func c19Run(t *testing.T, run *Run, sc c19Scenario) {
 				fail("abort-status", "client of %s went away while the target was working; record status=%d, expected 499", r.ID, num(rec, "status"))
 				return
 			}
-		case "abort-download", "abort-upload", "target-truncated":
-			// only "exactly one record" is demanded
+		case "abort-download", "abort-upload", "target-truncated", "cut-length", "cut-chunked", "abort-download-at":
+			// A response that failed after it had begun. If nothing of it reached the client only "exactly
+			// one record" is demanded. If the client was sent a status line, that status is the one that was
+			// used for this request, and the record must not count fewer body bytes than the client took.
+			delivered := o.status > 0
+			if delivered {
+				st := num(rec, "status")
+				clientLeft := strings.HasPrefix(r.Ending, "abort-")
+				if st != o.status && !(clientLeft && st == 499) {
+					fail("status-field:"+r.Ending, "client of %s was sent status %d (and %d body bytes) before the response broke off; record says status=%d", r.ID, o.status, o.bodyLen, st)
+					return
+				}
+				if r.Method != "HEAD" && num(rec, "resp_content_length") < o.bodyLen {
+					fail("bytes-field:"+r.Ending, "client of %s received %d body bytes before the response broke off, record says resp_content_length=%d", r.ID, o.bodyLen, num(rec, "resp_content_length"))
+					return
+				}
+				run.Count("broken_off_responses_whose_status_reached_the_client", 1)
+			}
+			if r.Ending == "cut-length" || r.Ending == "cut-chunked" {
+				if delivered && o.status != r.CutStatus {
+					fail("harness-expectation:"+r.Ending, "request %s (%s): client got status %d, the target answered %d", r.ID, r.Ending, o.status, r.CutStatus)
+					return
+				}
+				sent := "0"
+				switch {
+				case r.Sent >= 4096:
+					sent = "4k+"
+				case r.Sent > 0:
+					sent = "<4k"
+				}
+				run.Class(fmt.Sprintf("%s|status=%d|sent=%s|in_chunk=%v|event_stream=%v|delay_ms=%d|buffered=%v|status_reached_client=%v", r.Ending, r.CutStatus, sent, r.InChunk, r.SSE, r.CutDelayMS, r.Host == "cutbuf.example", delivered))
+			}
+			if r.Ending == "abort-download-at" {
+				run.Class(fmt.Sprintf("%s|size=%d|client_reads=%d|status_reached_client=%v", r.Ending, r.Size, r.ReadBytes, delivered))
+			}
 		case "upgrade":
 			if num(rec, "status") != 101 {
 				fail("upgrade-status", "upgraded request %s logged with status %d", r.ID, num(rec, "status"))
